@@ -187,7 +187,7 @@ def parse_agg_tlc(out):
 def strings_of_prefix(fn, a, b):
     lo = 0 if fn in ("tl", "size", "oid") else 1
     if fn == "b64":
-        return 255 * 255
+        return 64 + 255 - 8
     return (256 - lo) + 1 + (1 if b == lo else 0) + (1 if (a == lo and b == lo) else 0)
 
 
@@ -387,7 +387,7 @@ def run(ctx):
     ev.cov.setdefault("transitions", 0)
     ev.cov.setdefault("traces_validated_against_impl", 0)
     ev.cov["disagreeing_lines"] = len(bads)
-    ev.cov["exhaustive"] = "all strings of <= 3 symbols for %s" % ("tl, size, oid, hex, dec; 4-symbol b64 strings (8x8 representatives x 255x255)"
+    ev.cov["exhaustive"] = "all strings of <= 3 symbols for %s" % ("tl, size, oid, hex, dec; 4-symbol b64 strings (a: 8 representatives, b: all, (c,d): 8x8 representatives and all c with d = '=')"
                            if not ctx.quick else "quick slices: tl (first octets with tag numbers 31, 4 and one seeded number, all second/third octets), size/oid (tag numbers 0, 2/6, 31), hex/dec (1/4 of second symbols); b64 as in thorough")
     ev.assume("size_t has 8 octets (LP64); a length equal to SIZE_MAX is not representable (reserved error code)")
     ev.assume("apduCmdDec may refuse well-formed codes in a non-minimal (extended where short fits) form; it must accept every canonical code")
